@@ -105,7 +105,7 @@ pub struct SizesInfo {
 impl SizesInfo {
     /// Get the uncompressed block size of block `block_num`
     fn uncompressed_block_size_at(&self, block_num: usize) -> u32 {
-        if block_num < self.compressed_sizes.len() - 1 {
+        if block_num + 1 < self.compressed_sizes.len() {
             UNCOMPRESSED_DATA_SIZE
         } else {
             self.last_block_size
@@ -122,6 +122,10 @@ impl SizesInfo {
 
     /// Maximum uncompressed available position
     fn max_uncompressed_pos(&self) -> u64 {
+        if self.compressed_sizes.is_empty() {
+            // No block at all: empty stream
+            return 0;
+        }
         (self.compressed_sizes.len() as u64 - 1) * u64::from(UNCOMPRESSED_DATA_SIZE)
             + u64::from(self.last_block_size)
     }
